@@ -26,6 +26,8 @@ RULE = (
     "white space for non-string leaves) identical; in-memory serialisation of every part identical before and after each save "
     "(meta:generator excepted); repeated / mixed saves give C14N-identical plain output. Non-trivial = a paragraph with an inline "
     "element lacking a tail directly followed by another element or the paragraph end; enumeration part exhaustive."
+    ' Also documents with comments/processing instructions in their parts; frames sharing one picture that exists in the pa'
+    'ckage (flat XML must keep one draw:image per frame).'
 )
 ASSUMPTIONS = [
     "lib/odfread.plain_projection implements the ODF white-space rules; element-only containers ignore white-space-only text",
